@@ -1,4 +1,4 @@
-import RSocketModel.Props.C11
+import RSocketModel.Proofs.C11Lemmas
 /-!
 Which application objects the outputs of a step are addressed to, and when an object is *silent*
 (cannot receive any further subscriber / future signal). Helper lemmas for C07 and C09.
